@@ -419,7 +419,20 @@ func sortedCopy(l []string) []string {
 // for records that stay static, words with ':' or '*' in mid-segment (literal there by denco's own rule).
 var literalWords = append(append([]string{}, gen.Words...), "manh\u00e3", "men\u00fa", "f\u00eate", "\u043a\u043d", "caf\u00e9", "\u00a3", "\u00aa", "\u00ba")
 
+// longWords: literal words that carry a pattern (and the paths equal to it) across the lengths where
+// fixed-width bookkeeping would wrap (31..33, 63..65, 127..129, 255..257 bytes).
+var longWords = func() []string {
+	var out []string
+	for _, n := range []int{29, 30, 31, 32, 61, 62, 63, 64, 125, 126, 127, 128, 253, 254, 255, 256} {
+		out = append(out, strings.Repeat("organizations-", n/14+1)[:n])
+	}
+	return out
+}()
+
 func word(r *rand.Rand) string {
+	if r.Intn(40) == 0 {
+		return longWords[r.Intn(len(longWords))]
+	}
 	if r.Intn(6) == 0 {
 		return literalWords[r.Intn(len(literalWords))]
 	}
